@@ -13,7 +13,8 @@
    i.e. the composed model mdiff_new of Mdiff/MdiffCompose.v predicts everything from the inputs.
 
    H / HC: histories; U: UnifyChunks on arbitrary chunk lists; S / SC: texts by recipe, digested
-   outputs; PD / PU (round 4): the case of an H line after an earlier call in the same process. *)
+   outputs; PD / PU (round 4): the case of an H line after an earlier call in the same process;
+   V / VC (round 5): Left and Right two windows of one array. *)
 
 let leq (a : M.n list) (b : M.n list) = (a = b)
 
@@ -57,10 +58,41 @@ let parse_ops s : M.hop list =
     else if String.length w >= 2 && w.[0] = 'a' then M.HAdd (z_of_string (String.sub w 1 (String.length w - 1)))
     else failwith ("bad op " ^ w)) (String.split_on_char ',' s)
 
+(* V / VC lines (round 5, harness/cmd/mdifftrace/round5.go): Left = arr[i:j], Right = arr[p:q], two
+   windows of ONE array (how they were built -- plain or capacity-clipped slice expressions, append
+   within spare capacity, the Diff rebuilt as a struct literal -- is the harness's business).  The
+   model knows texts, not storage: the line is the H line of the two windows.  Indices clamped as
+   in the harness. *)
+let shared_windows how win arr =
+  let ok_how = match how with
+    | "v" | "c" | "a" | "A" | "vl" | "cl" | "al" | "Al" -> true | _ -> false in
+  match List.map int_of_string_opt (String.split_on_char '.' win) with
+  | [Some i; Some j; Some p; Some q] when ok_how ->
+    let a = Array.of_list (unhexs arr) in
+    let n = Array.length a in
+    let cl x = min (max x 0) n in
+    let i = cl i and p = cl p in
+    let j = max (cl j) i and q = max (cl q) p in
+    let shape_ok = match how.[0] with
+      | 'a' -> i = p && j <= q
+      | 'A' -> i = p && q <= j
+      | _ -> true in
+    if not shape_ok then None
+    else Some (Array.to_list (Array.sub a i (j - i)), Array.to_list (Array.sub a p (q - p)))
+  | _ -> None
+
 let parse_hist inp =
   match words inp with
   | ["H"; ops; script; lhs; rhs] -> Some (parse_ops ops, script, unhexs lhs, unhexs rhs)
   | ["HC"; ops; lhs; rhs] -> Some (parse_ops ops, "", unhexs lhs, unhexs rhs)
+  | ["V"; how; ops; script; win; arr] ->
+    (match shared_windows how win arr with
+     | Some (lhs, rhs) -> Some (parse_ops ops, script, lhs, rhs)
+     | None -> None)
+  | ["VC"; how; ops; win; arr] ->
+    (match shared_windows how win arr with
+     | Some (lhs, rhs) -> Some (parse_ops ops, "", lhs, rhs)
+     | None -> None)
   | _ -> None
 
 (* PD / PU lines (harness/cmd/mdifftrace/round4.go): the history case of an H line run after an
